@@ -77,9 +77,34 @@ fn gen_many_keys(rng: &mut Rng) -> Scn {
     Scn { callers, knobs: SchedKnobs::gen(rng, false, 60), owner_dropped: false, sole_handle: false, reentrant: vec![] }
 }
 
+/// A long history on one service (anything an implementation does "every n-th registration"
+/// needs one): a slow leader, some three hundred short requests on two other keys one after the
+/// other, then requests that must join the slow leader's call, which is still running.
+fn gen_long_history(rng: &mut Rng) -> Scn {
+    let plain = |start_ms: u64, key: u32, lat_ms: u64| Caller {
+        start_ms,
+        key,
+        beh: Behaviour { lat_ms, out: Outcome::Ok, yields: 0 },
+        cancel: CancelSpec::Never,
+        hold_ms: 0,
+        drop_unpolled_after_ms: None,
+    };
+    let mut callers = vec![plain(0, 1, 200)];
+    let n = rng.range(260, 300);
+    for i in 0..n {
+        callers.push(plain(1 + i / 2, 2 + (i % 2) as u32, 0));
+    }
+    callers.push(plain(n / 2 + 5, 1, 5));
+    callers.push(plain(n / 2 + 6, 1, 5));
+    Scn { callers, knobs: SchedKnobs::gen(rng, false, 60), owner_dropped: false, sole_handle: false, reentrant: vec![] }
+}
+
 pub fn gen(rng: &mut Rng) -> Scn {
     if rng.chance(1, 12) {
         return gen_many_keys(rng);
+    }
+    if rng.chance(1, 60) {
+        return gen_long_history(rng);
     }
     let n = rng.range(2, 10) as usize;
     let nkeys = rng.range(1, 3) as u32;
@@ -128,7 +153,7 @@ pub fn valid(s: &Scn) -> bool {
         return false;
     }
     s.callers.len() >= 1
-        && s.callers.len() <= 12
+        && (s.callers.len() <= 12 || (s.callers.len() <= 320 && s.reentrant.is_empty() && !s.owner_dropped && !s.sole_handle && s.callers.iter().all(|c| c.cancel == CancelSpec::Never && c.hold_ms == 0 && c.drop_unpolled_after_ms.is_none())))
         && (s.reentrant.is_empty() || (!s.owner_dropped && !s.sole_handle && s.reentrant.len() <= 4 && s.reentrant.iter().all(|i| (*i as usize) < s.callers.len())))
         && s.callers.iter().all(|c| c.start_ms <= 300 && c.key % 100 >= 1 && c.key % 100 <= 16 && c.key / 100 <= 1 && c.beh.lat_ms <= 200 && c.beh.yields <= 4 && c.hold_ms <= 100 && c.drop_unpolled_after_ms.map(|d| d <= 50).unwrap_or(true))
         && s.knobs.jumps.len() <= 3
